@@ -76,7 +76,7 @@ def build(claimed):
                      'kind_free_text': 'deterministic simulation engine (seeded scenarios, fault injection at the seams, reference model oracles)'} for k, v in sorted(engines.items())],
         'checks': checks,
         'not_applicable': sorted(na, key=lambda x: x['property_id']),
-        'notes': 'Technique family: deterministic simulation with fault injection only. VERIF_SEED selects the scenario block, VERIF_JOBS the worker count, VERIF_REPO the tree under test. Exit 0 = held (KNOWN-FINDING lines possible), 1 = VIOLATION line(s), 2 = harness problem (never with a VIOLATION line). fix: commits in /repo: 3d472ef (C07), 7db8fec (C14), d79de7b (C10), ff4fc2c (C10), b5ab173 (C09), f10739f (C14), 91e99ad (C06), 9730d06 (C10), 8ba37bf (C07); one open known finding (C07, descent for lamb below the rounding level) is probed in every C07 run and printed as KNOWN-FINDING; see known_findings.json. A sample of the scenarios of every check is executed again by an interpreter started with -O (VERIF_PYFLAGS).',
+        'notes': 'Technique family: deterministic simulation with fault injection only. VERIF_SEED selects the scenario block, VERIF_JOBS the worker count, VERIF_REPO the tree under test. Exit 0 = held (KNOWN-FINDING lines possible), 1 = VIOLATION line(s), 2 = harness problem (never with a VIOLATION line). fix: commits in /repo: 3d472ef (C07), 7db8fec (C14), d79de7b (C10), ff4fc2c (C10), b5ab173 (C09), f10739f (C14), 91e99ad (C06), 9730d06 (C10), 8ba37bf (C07), de04f21 (C10); one open known finding (C07, descent for lamb below the rounding level) is probed in every C07 run and printed as KNOWN-FINDING; see known_findings.json. A sample of the scenarios of every check is executed again by an interpreter started with -O (VERIF_PYFLAGS).',
     }
 if __name__ == '__main__':
     import sys
